@@ -34,6 +34,19 @@ COLLECT = [
     ("(/[1])+(/[0])", [(("idx", 1),), (("idx", 0),)]),
     ("(/a)+(/b)", [(("key", "a"),), (("key", "b"),)]),
 ]
+# the same element gathered once by its positive and once by its negative
+# index, in both orders, next to other elements
+for _i in (0, 1, 2):
+    for _j in (-1, -2, -3):
+        COLLECT.append(("(/[%d])+(/[%d])" % (_i, _j),
+                        [(("idx", _i),), (("idx", _j),)]))
+        COLLECT.append(("(/[%d])+(/[%d])" % (_j, _i),
+                        [(("idx", _j),), (("idx", _i),)]))
+        COLLECT.append(("(/a[%d])+(/a[%d])" % (_i, _j),
+                        [(("key", "a"), ("idx", _i)),
+                         (("key", "a"), ("idx", _j))]))
+COLLECT.append(("(/[1])+(/[-2])+(/[1])", [(("idx", 1),), (("idx", -2),),
+                                         (("idx", 1),)]))
 
 
 def plan(tier):
@@ -42,6 +55,8 @@ def plan(tier):
     DOCS = corpus.docs(nmax, (1, 1000, "a"), ("a", "b"), sets=False)
     DOCS += [s for s in corpus.collision_pack()
              if not (isinstance(s, tuple) and s[0] == "s")]
+    DOCS += [("l", ("p", "q", "r", "s")), ("l", (1, 1, 1, 1)),
+             ("m", (("a", ("l", ("p", "q", "r", "s"))), ("b", 1)))]
     voc = paths.vocab("c01-quick") + [("idx", -2), ("idx", 2)]
     PLIST = [((s,), paths.render((s,), "/")) for s in voc]
     for p in paths.upto(paths.vocab("c01-quick"), 2):
